@@ -250,6 +250,21 @@ pub fn observe(verbose: bool, ase: &AsepriteFile, input_len: usize, o: &mut Vec<
             .map(|&i| ids.get(i).map_or("?".to_string(), |x| x.to_string()))
             .collect();
         o.push(format!("iter {} {}", ids.len(), picked.join(",")));
+        // the same iterator through std's adaptors (nth / skip / step_by are defined by `next`)
+        let fmt = |v: Vec<u32>| v.iter().take(12).map(|x| x.to_string()).collect::<Vec<_>>().join(",");
+        let skip1: Vec<u32> = ase.layers().skip(1).map(|l| l.id()).collect();
+        let step2: Vec<u32> = ase.layers().step_by(2).take(70000).map(|l| l.id()).collect();
+        let mut it = ase.layers();
+        let first = it.next().map(|l| l.id());
+        let then_nth1 = it.nth(1).map(|l| l.id());
+        let after = it.next().map(|l| l.id());
+        let last = ase.layers().last().map(|l| l.id());
+        let on = |x: Option<u32>| x.map_or("-".to_string(), |v| v.to_string());
+        o.push(format!(
+            "iterx skip1={}:{} step2={}:{} next={} nth1={} next={} last={} count={}",
+            skip1.len(), fmt(skip1.clone()), step2.len(), fmt(step2.clone()),
+            on(first), on(then_nth1), on(after), on(last), ase.layers().count()
+        ));
     }
     let n_t = ase.num_tags() as usize;
     o.push(format!("tags {}", n_t));
@@ -570,9 +585,38 @@ fn on_small_thread<T: Send + 'static>(f: impl FnOnce() -> T + Send + 'static) ->
 
 fn assert_send_sync<T: Send + Sync>() {}
 
+/// milliseconds since start at which the current case began (0 = idle)
+static CASE_START: std::sync::atomic::AtomicU64 = std::sync::atomic::AtomicU64::new(0);
+
+fn case_begin(t0: std::time::Instant) {
+    CASE_START.store(t0.elapsed().as_millis() as u64 + 1, std::sync::atomic::Ordering::SeqCst);
+}
+
+fn case_end() {
+    CASE_START.store(0, std::sync::atomic::Ordering::SeqCst);
+}
+
+/// A case that does not return within the limit ("fails to return") is reported and the worker
+/// exits; the orchestrator restarts it after that case.
+fn start_watchdog(t0: std::time::Instant) {
+    let limit_ms: u64 = std::env::var("OBSERVE_CASE_TIMEOUT_MS").ok().and_then(|v| v.parse().ok()).unwrap_or(30_000);
+    std::thread::spawn(move || loop {
+        std::thread::sleep(std::time::Duration::from_millis(250));
+        let st = CASE_START.load(std::sync::atomic::Ordering::SeqCst);
+        if st != 0 && (t0.elapsed().as_millis() as u64 + 1).saturating_sub(st) > limit_ms {
+            let msg = b"load timeout\nEND\n";
+            let _ = std::io::stdout().write_all(msg);
+            let _ = std::io::stdout().flush();
+            std::process::exit(3);
+        }
+    });
+}
+
 fn main() {
     assert_send_sync::<AsepriteFile>();
     panic::set_hook(Box::new(|_| {}));
+    let t0 = std::time::Instant::now();
+    start_watchdog(t0);
     let stdin = io::stdin();
     let stdout = io::stdout();
     let mut out = io::BufWriter::new(stdout.lock());
@@ -596,7 +640,9 @@ fn main() {
                 match unhex(parts[2]) {
                     None => writeln!(out, "bad-hex").unwrap(),
                     Some(bytes) => {
+                        case_begin(t0);
                         let lines = on_small_thread(move || load_case(verbose, outcome_only, &bytes));
+                        case_end();
                         match lines {
                             Some(lines) => {
                                 for l in lines {
@@ -627,8 +673,16 @@ fn main() {
                 writeln!(out, "END").unwrap();
                 out.flush().unwrap();
             }
-            "SCHED" => sched::handle(&parts, &mut out),
-            "ALLOC" => alloc::handle(&parts, &mut out),
+            "SCHED" => {
+                case_begin(t0);
+                sched::handle(&parts, &mut out);
+                case_end();
+            }
+            "ALLOC" => {
+                case_begin(t0);
+                alloc::handle(&parts, &mut out);
+                case_end();
+            }
             "UTIL" => util_obs::handle(&parts, &mut out),
             "THREADS" => sched::handle_threads(&parts, &mut out),
             _ => {
